@@ -23,7 +23,7 @@ def run(ctx):
     ctx.model("MCLayout", "NegLayout_allpairs.cfg", workers=4, expect_violation="ModelSeparatedAllPairs",
               label="negative self-test: the end-to-end MODEL itself reproduces known finding F-01 (all-pairs separation fails for "
                     "two stubs around a narrow label at spacing 0)")
-    recs, meta, errors = lc.gather(ctx, ["random", "dense", "bounds", "float", "centi", "sibling", "far", "relayout", "direct"])
+    recs, meta, errors = lc.gather(ctx, ["random", "dense", "bounds", "float", "centi", "sibling", "far", "offscreen", "relayout", "direct"])
     if errors:
         ctx.notes.append("%d layouts raised RecursionError (not part of C01)" % len(errors))
     lc.report_errors(ctx, errors, "C01_")
